@@ -9,7 +9,7 @@
 (* difference <= 1, which is all Good() looks at) -- they travel as decimal    *)
 (* strings.                                                                    *)
 EXTENDS PoolSelect, Sequences, Json, TLC
-CONSTANTS N, SeqVals, RttVals, Top, Alive1, Seq1    \* Alive1/Seq1: shard = values of connection 1
+CONSTANTS N, SeqVals, RttVals, Top, Alive1, Seq1, Seq2   \* shard: liveness/seqno of connection 1, seqno of connection 2
 VARIABLES conns, fired
 gvars == <<conns, fired>>
 
@@ -20,7 +20,7 @@ Shard    == {v \in ConnVals : v.alive \in Alive1 /\ v.seqno \in Seq1}
 RealSeq(v) == IF v + 9 >= Top THEN "429496729" \o ToString(5 - (Top - v)) ELSE ToString(v)
 ASSUME Top > 1000 /\ \A v \in SeqVals : v < 100 \/ (v <= Top /\ Top - v <= 5)
 
-Init == /\ conns \in {<<c1>> \o t : c1 \in Shard, t \in [1..(N-1) -> ConnVals]}
+Init == /\ conns \in {<<c1>> \o t : c1 \in Shard, t \in {u \in [1..(N-1) -> ConnVals] : N = 1 \/ u[1].seqno \in Seq2}}
         /\ fired = FALSE
 \* the refresh itself: both strategies, from the previous best that exposes "keep"
 Next == ~fired /\ fired' = TRUE /\ conns' = conns
